@@ -34,11 +34,15 @@
    unstyled runs in a line (the writer joins runs with a space: they would read back as one run), at least one line
    and one run, encoded text of at most 112 bytes, in/out times on the frame grid after adding the programme start
    (a time inside a frame is truncated to the frame: C16), fewer than 65536 cues (16-bit subtitle number).
+   * reader structure, for every file made of a GSI block and 128-byte blocks (any content): one cue per block that
+     is not a user-data block, in order, its times the block's timecodes converted at the file's frame rate minus the
+     programme start (zero when told to ignore it), vertical position, justification, rows through the row parser of
+     the display standard (C05_read_spec, C05_read_count, C05_read_item_fields); shorter files are errors.
    Not proved here (oracle and correspondence only): reading of arbitrary renderings of a ground-truth file (style
    codes in any order, closing codes omitted, colour / start box codes); the theorems cover the writer's rendering. *)
 From Coq Require Import List ZArith NArith Bool.
 From Astisub Require Import Kit.Base Kit.Str Kit.Utf8 Kit.Scan Model.Dur Model.Stl Gen.StlTables Proofs.StlCodec Proofs.StlBlocks
-  Proofs.StlTti Proofs.StlGsi Proofs.StlRows Proofs.StlRowsTtx Proofs.StlDoc Proofs.StlWriteRead.
+  Proofs.StlTti Proofs.StlGsi Proofs.StlRows Proofs.StlRowsTtx Proofs.StlDoc Proofs.StlWriteRead Proofs.StlReadSpec.
 Import ListNotations.
 
 (* ---- character codec ---- *)
@@ -192,3 +196,26 @@ Print Assumptions C05_read_back_metadata.
 Theorem C05_example_document : doc_repr_open ex_now (Some ex_md) ex_items.
 Proof. exact ex_doc_repr. Qed.
 Print Assumptions C05_example_document.
+
+(* ---- the reader on any file: block framing, user-data blocks, times, the ignore option ---- *)
+Theorem C05_read_spec : forall (ign : bool) (gb : str) (blocks : list str) (g : gsi),
+  length gb = 1024%nat -> Forall (fun p => length p = 128%nat) blocks ->
+  parse_gsi gb = Ok g -> nmem (g_cct g) stl_tables_existing = true ->
+  let tcp := if ign then 0%Z else g_tcp g in
+  read_stl ign (gb ++ concat blocks) =
+  match blocks_spec g tcp None blocks with Ok items => Ok (rdoc_with g tcp items) | Err k => Err k | Panic s => Panic s end.
+Proof. exact read_spec. Qed.
+Print Assumptions C05_read_spec.
+Theorem C05_read_count : forall g tcp (blocks : list str) acc items, blocks_spec g tcp acc blocks = Ok items ->
+  length items = length (filter (fun p => negb (is_user_data p)) blocks).
+Proof. exact blocks_spec_count. Qed.
+Print Assumptions C05_read_count.
+Theorem C05_read_item_fields : forall g tcp p nrows lines,
+  let x := item_of g tcp (parse_tti p (g_fps g)) nrows lines in
+  ri_st x = (parse_stl_bytes (stl_sl 5 4 p) (g_fps g) - tcp)%Z /\ ri_en x = (parse_stl_bytes (stl_sl 9 4 p) (g_fps g) - tcp)%Z /\
+  ri_vp x = Z.of_N (nth 13 p 0%N) /\ ri_just x = parse_jc (nth 14 p 0%N) /\ ri_maxrows x = g_mnr g /\ ri_lines x = lines.
+Proof. exact item_of_fields. Qed.
+Print Assumptions C05_read_item_fields.
+Theorem C05_read_short : forall ign data, (length data < 1024)%nat -> exists k, read_stl ign data = Err k.
+Proof. exact read_short_gsi. Qed.
+Print Assumptions C05_read_short.
